@@ -263,7 +263,7 @@ public:
 	*/
 	HttpRequest(const String& method, const String& url, const Dic<>& headers) : _method(method), _url(url)
 	{
-		_headers = headers; init();
+		_headers = headers.clone(); init(); // own copy: the request adds headers (Content-Length, ...) and must not change or reallocate the caller's Dic
 	}
 	/**
 	Constructs an HttpRequest with the given method and body (a String, a ::ByteArray, a Var (sent as JSON) or a File)
@@ -276,7 +276,7 @@ public:
 	template<class T>
 	HttpRequest(const String& method, const String& url, const T& data, const Dic<>& headers) : _method(method), _url(url)
 	{
-		_headers = headers; put(data); init();
+		_headers = headers.clone(); put(data); init(); // own copy (see above)
 	}
 	HttpRequest(Socket& s)
 	{
